@@ -276,6 +276,10 @@ class GIRWriter(XMLWriter):
         attrs = []
         if return_.transfer:
             attrs.append(('transfer-ownership', return_.transfer))
+        elif return_.skip:
+            # A skipped value is not analysed by the introspectable pass and
+            # may have no transfer; the typelib compiler requires the attribute
+            attrs.append(('transfer-ownership', ast.PARAM_TRANSFER_NONE))
         if return_.skip:
             attrs.append(('skip', '1'))
         if return_.nullable and not return_.not_nullable:
@@ -318,6 +322,8 @@ class GIRWriter(XMLWriter):
         if parameter.transfer:
             attrs.append(('transfer-ownership',
                           parameter.transfer))
+        elif parameter.skip:
+            attrs.append(('transfer-ownership', ast.PARAM_TRANSFER_NONE))
         if parameter.nullable and not parameter.not_nullable:
             attrs.append(('nullable', '1'))
             if parameter.direction != ast.PARAM_DIRECTION_OUT:
